@@ -35,6 +35,12 @@ RULE = ("pairs of document streams of lengths 1..4 (documents: empty/null docume
         "share names), x 3 modes x --mergeat in {/, /base, /base/sub, /apps/web} x 4 Anchor policies x arrays all|unique; the "
         "outcome (refusal or the written documents: data and the (name, value) of every Anchor definition) must be that of the "
         "mode's chain of pairwise merges, each step run by a Merger and MergerConfig of its own that have merged nothing before.  "
+        "Output renderings: 1 920 (quick) stream pairs of JSON-representable documents (all 4 x 4 length pairs x 3 modes) through "
+        "yaml-merge main() with --document-format yaml|json|auto x --json-indent absent|-1|0|2|4 x STDOUT | --output FILE | "
+        "--overwrite FILE (.json/.yaml, existing or not), a single-document left file sometimes being JSON text; the stream read "
+        "back from where the command wrote it (a sequence of JSON values, else YAML) must hold 1 / max(|L|,|R|) / |L| documents "
+        "(direct: the number and order depend on the mode and the stream lengths alone, not on the rendering) and they must be "
+        "the model's documents as plain data.  "
         "distinct_nontrivial = cases with status 0 in which at least one pairwise merge changed a document.")
 
 MODES = ["condense_all", "merge_across", "matrix_merge"]
@@ -488,6 +494,186 @@ def run_anchored(case):
     return [], True
 
 
+# --------------------------------------------------------------------------- the written stream under every output rendering
+
+R_FORMATS = ["json", "json", "json", "auto", "auto", "yaml"]
+R_INDENTS = [None, -1, 0, 2, 4]
+R_TARGETS = ["stdout", "stdout", "output", "overwrite"]
+
+
+def render_case(rng, i):
+    """Streams of JSON-representable documents (text keys, no sets) x mode x an output rendering: --document-format
+    yaml | json | auto, --json-indent absent | -1 | 0 | 2 | 4, written to STDOUT, to a new --output file or to an --overwrite
+    file (existing or not) whose name ends in .json or .yaml; a single-document left file is sometimes itself JSON text (so
+    that `auto` follows the first document)."""
+    nl, nr = 1 + (i % 4), 1 + ((i // 4) % 4)
+    mode = MODES[(i // 16) % 3]
+    while True:
+        L, R = rand_streams(rng, nl, nr)
+        L, R = [c05._no_sets(d) for d in L], [c05._no_sets(d) for d in R]
+        if file_safe(L) and file_safe(R):
+            break
+    cfg = {k: v for k, v in mg.rand_policy(rng, mg.S(1), with_rules=False).items() if k in ("hash", "array", "aoh", "set")}
+    render = {"format": rng.choice(R_FORMATS), "indent": rng.choice(R_INDENTS), "to": rng.choice(R_TARGETS),
+              "ext": rng.choice([".json", ".json", ".yaml"]), "exists": rng.random() < 0.5,
+              "json_input": nl == 1 and rng.random() < 0.3}
+    return {"mode": mode, "lhs": L, "rhs": R, "cfg": cfg, "how": "render", "files": [L, R], "render": render}
+
+
+def parse_rendered(text):
+    """The written text as a stream of plain documents: a sequence of JSON values (one per line or indented), else YAML."""
+    from harness.props import cli_common as cc
+    from yamlpath.common import Parsers
+    dec, pos, docs = json.JSONDecoder(), 0, []
+    try:
+        while True:
+            while pos < len(text) and text[pos].isspace():
+                pos += 1
+            if pos >= len(text):
+                break
+            obj, pos = dec.raw_decode(text, pos)
+            docs.append(obj)
+        if docs:
+            return "json", docs
+    except ValueError:
+        pass
+    return "yaml", [cc.plain_json(codec.node_to_json(x, anchors=False)) for x in Parsers.get_yaml_editor().load_all(text)]
+
+
+def impl_render(case, limit_s=20.0):
+    """yaml-merge main() in-process with the case's output rendering -> {"state", "docs": plain documents read back from
+    where the command wrote them, "as": json|yaml}."""
+    from yamlpath.commands import yaml_merge
+    from harness.props import cli_common as cc
+    rd = case["render"]
+    d = mg._tmpdir()
+    paths = []
+    for i, docs in enumerate(case["files"]):
+        p = os.path.join(d, "r%d-%d.yaml" % (os.getpid(), i))
+        if i == 0 and rd.get("json_input") and len(docs) == 1:
+            cc.dump_json(docs, p)
+        else:
+            dump_stream(docs, p)
+        paths.append(p)
+    argv = ["yaml-merge", "--nostdin", "-D", rd["format"], "-M", case["mode"]]
+    if rd["indent"] is not None:
+        argv += ["-J", str(rd["indent"])]
+    outp = None
+    if rd["to"] != "stdout":
+        outp = os.path.join(d, "rout-%d%s" % (os.getpid(), rd["ext"]))
+        if os.path.exists(outp):
+            os.remove(outp)
+        if rd["to"] == "overwrite" and rd.get("exists"):
+            with open(outp, "w") as fh:
+                fh.write("old: content\n")
+        argv += ["-o" if rd["to"] == "output" else "-w", outp]
+    else:
+        argv.insert(2, "--quiet")
+    for n, opt in (("hash", "-H"), ("array", "-A"), ("aoh", "-O"), ("set", "-E")):
+        if case["cfg"].get(n):
+            argv += [opt, case["cfg"][n]]
+    argv += paths
+    old = signal.signal(signal.SIGVTALRM, _alarm)
+    signal.setitimer(signal.ITIMER_VIRTUAL, limit_s)
+    o_argv, o_out, o_err = sys.argv, sys.stdout, sys.stderr
+    out = io.StringIO()
+    try:
+        sys.argv, sys.stdout, sys.stderr = argv, out, io.StringIO()
+        try:
+            yaml_merge.main()
+            code = 0
+        except SystemExit as se:
+            code = se.code if isinstance(se.code, int) else (0 if se.code is None else 1)
+        finally:
+            sys.argv, sys.stdout, sys.stderr = o_argv, o_out, o_err
+        if code != 0:
+            return {"state": code, "docs": None}
+        if outp is not None:
+            with open(outp, encoding="utf-8") as fh:
+                text = fh.read()
+        else:
+            text = out.getvalue()
+        kind_, docs = parse_rendered(text)
+        return {"state": 0, "docs": docs, "as": kind_, "text": text[:600]}
+    except Timeout:
+        return {"err": "timeout"}
+    except codec.OutOfModel:
+        return {"oom": 1}
+    except Exception as e:  # noqa
+        return mg.classify_exc(e)
+    finally:
+        sys.argv, sys.stdout, sys.stderr = o_argv, o_out, o_err
+        signal.setitimer(signal.ITIMER_VIRTUAL, 0)
+        signal.signal(signal.SIGVTALRM, old)
+        if outp is not None and os.path.exists(outp):
+            os.remove(outp)
+
+
+def render_class(rd, wrote_as):
+    ind = "default" if rd["indent"] is None else ("single-line" if rd["indent"] < 0 else "indented")
+    return "%s-written:json-indent=%s:%s" % (wrote_as or rd["format"], ind, "stdout" if rd["to"] == "stdout" else "file")
+
+
+def run_render(cases):
+    """Clause: the number and order of the output documents is determined by the mode and the stream lengths alone - not
+    by how the result is rendered.  Direct: with status 0 the stream read back from STDOUT / the output file holds
+    1 / max(|L|,|R|) / |L| documents.  Correspondence: they are the model's documents (as plain data), in its order."""
+    from harness.props import cli_common as cc
+    stats, findings, hist, nontrivial = {"n": 0, "oom": 0}, [], {}, 0
+    reqs, prepared = [], []
+    for c in cases:
+        try:
+            mc = mg.model_cfg(c["cfg"], c["lhs"] + c["rhs"])
+        except codec.OutOfModel:
+            stats["oom"] += 1
+            continue
+        reqs.append({"op": "C18.main", "mode": c["mode"], "files": c["files"], "cfg": mc})
+        prepared.append(c)
+    model = core.Driver().ask(reqs) if reqs else []
+    for c, mo in zip(prepared, model):
+        im = impl_render(c)
+        stats["n"] += 1
+        rd, mode = c["render"], c["mode"]
+        argv_desc = "-D %s%s, written to %s" % (rd["format"], "" if rd["indent"] is None else " -J %d" % rd["indent"],
+                                               "STDOUT" if rd["to"] == "stdout" else "--%s FILE%s" % (rd["to"], rd["ext"]))
+        desc = "%s of %s with %s under %s (yaml-merge main, %s)" % (mode, [c05._show(d) for d in c["lhs"]], [c05._show(d) for d in c["rhs"]],
+                                                                   json.dumps(c["cfg"], sort_keys=True), argv_desc)
+        if "oom" in im or mo.get("err") == "outOfModel":
+            stats["oom"] += 1
+            continue
+        if "err" in im:
+            if im["err"] != "config" and len(findings) < 40:
+                findings.append(("violation", "%s@%s" % (im["err"], im.get("site", "?")), "%s raised %s at %s" % (desc, im["err"], im.get("site")), dict(c, impl=im)))
+            continue
+        cls = render_class(rd, im.get("as"))
+        k = "render:%s:%s" % (mode, cls)
+        hist[k] = hist.get(k, 0) + 1
+        if im["state"] != 0:
+            if mo.get("state") == 0 and len(findings) < 40:
+                findings.append(("violation", "state:%s:impl=%d,model=0:render" % (mode, im["state"]),
+                                 "%s ended with state %d; every pairwise merge is defined, the mode defines state 0" % (desc, im["state"]), dict(c, impl=im, model=mo)))
+            continue
+        n, want_n = len(im["docs"]), expected_count(mode, len(c["lhs"]), len(c["rhs"]))
+        if n != want_n:
+            if len(findings) < 40:
+                findings.append(("violation", "count:%s:%s" % (mode, cls),
+                                 "%s wrote %d document(s) %r; the mode and the stream lengths define %d" % (desc, n, im.get("text"), want_n),
+                                 dict(c, impl=im, model=mo)))
+            continue
+        if mo.get("state") != 0 or "docs" not in mo:
+            if "state" in mo and mo["state"] != 0 and len(findings) < 40:
+                findings.append(("violation", "state:%s:impl=0,model=%d:render" % (mode, mo["state"]),
+                                 "%s ended with state 0; a pairwise merge is impossible, the mode defines state %d" % (desc, mo["state"]), dict(c, impl=im, model=mo)))
+            continue
+        want = [cc.plain_json(x) for x in mo["docs"]]
+        if want != [cc.plain_json(x) for x in c["lhs"]][:len(want)] or len(want) != len(c["lhs"]):
+            nontrivial += 1
+        if im["docs"] != want and len(findings) < 40:
+            findings.append(("violation", "docs:%s:%s" % (mode, cls),
+                             "%s wrote %s; the mode defines %s" % (desc, json.dumps(im["docs"]), json.dumps(want)), dict(c, impl=im, model=mo)))
+    return stats, findings, [], nontrivial, hist
+
+
 def expected_count(mode, nl, nr):
     return 1 if mode == "condense_all" else (max(nl, nr) if mode == "merge_across" else nl)
 
@@ -663,6 +849,9 @@ def _job(job):
                 how = "file" if file_safe(R) else "mem"
             cases.append({"mode": mode, "lhs": L, "rhs": R, "cfg": cfg, "how": how, "files": files})
         return run_cases(cases)
+    if tag == "RENDER":
+        rng = random.Random(job[1])
+        return run_render([render_case(rng, job[3] + i) for i in range(job[2])])
     if tag == "EMPTY":
         return run_cases(empty_file_cases(random.Random(job[1]), job[2]))
     if tag == "ANCH":
@@ -704,6 +893,13 @@ def run(chk: core.Check):
         if "mode" not in c:
             print("replay: nothing to run for", json.dumps(c)[:300])
             return chk
+        if c.get("how") == "render":
+            res = run_render([c])
+            for kind_, sig, what, case in res[1]:
+                print("replay:", sig, "::", what[:800])
+                chk.violation(sig, what, case)
+            chk.evaluations += 1
+            return chk
         if c.get("how") == "anchored":
             v, _nt = run_anchored(c)
             for kind_, sig, what in v:
@@ -731,6 +927,9 @@ def run(chk: core.Check):
         jobs += [("EMPTY", chk.seed * 104729 + 17 + i, 2) for i in range(n_empty)]
         n_anch = 1800 if tier == "quick" else 18000
         jobs += [("ANCH", chk.seed * 15485863 + 5 + i, 60) for i in range(n_anch // 60)]
+        n_rend = int(os.environ.get("YPV_NRENDER") or (1920 if tier == "quick" else 19200))
+        jobs += [("RENDER", chk.seed * 32452843 + 11 + i, 96, i * 96) for i in range(n_rend // 96)]
+        chk.extra_cov["output_rendering_runs"] = n_rend
         chk.extra_cov["anchored_below_root_runs"] = n_anch
         chk.extra_cov["zero_document_file_runs"] = n_empty * 2 * 3 * (2 + 6 + 14)
         chk.extra_cov["stream_pairs"] = n
